@@ -32,12 +32,13 @@ ASSUMPTIONS = [
 ]
 REQUIRED = {"events.grammar": {"quick": 600, "thorough": 30000}, "events.all_formatters_same_stream": {"quick": 600, "thorough": 30000},
             "json.valid": {"quick": 300, "thorough": 15000}, "json.scenario_status": {"quick": 1500, "thorough": 80000},
-            "json.step_result": {"quick": 3000, "thorough": 150000}, "json.match_arguments_name_the_matched_text": {"quick": 2000, "thorough": 100000}, "json.readback": {"quick": 300, "thorough": 15000},
+            "json.step_result": {"quick": 3000, "thorough": 150000}, "pretty.coloured_terminal_shows_what_monochrome_prints": {"quick": 400, "thorough": 15000},
+            "json.match_arguments_name_the_matched_text": {"quick": 2000, "thorough": 100000}, "json.readback": {"quick": 300, "thorough": 15000},
             "plain.steps": {"quick": 1000, "thorough": 50000}, "progress2.chars": {"quick": 200, "thorough": 10000},
             "progress3.chars": {"quick": 500, "thorough": 25000}, "json.readback_file": {"quick": 100, "thorough": 300},
             "factory.own_file_has_own_report": {"quick": 150, "thorough": 6000},
             "factory.formatter_without_file_writes_stdout": {"quick": 50, "thorough": 2000}}
-REQUIRED_SEEN = {"formatter_active": BUILTINS}
+REQUIRED_SEEN = {"formatter_active": BUILTINS, "pretty_step_line_length": ["at_a_multiple_of_the_terminal_width", "next_to_a_multiple"]}
 NSHARDS = {"quick": 16, "thorough": 16}
 DOT = {"passed": ".", "failed": "F", "error": "E", "hook_error": "H", "skipped": "S", "untested": "_",
        "untested_pending": "p", "untested_undefined": "u", "undefined": "U", "pending": "P", "pending_warn": "p"}
@@ -608,11 +609,117 @@ def run_case(lab, mon, case, names, sample=False, real_files=None):
                     "events": [list(map(str, e[:3])) for e in rec.events[:40]]})
 
 
+def terminal_screen(text, width=80):
+    """What an ANSI terminal of *width* columns shows after *text* was written to it (cursor-up, SGR colours, line wrap with the
+    usual deferred wrap at the last column).  Returns the rows as text, trailing blanks removed."""
+    import re as _re
+    rows, r, c = [[]], 0, 0
+    pending_wrap = False
+    i, n = 0, len(text)
+    esc = _re.compile(r"\x1b\[(\d*)([A-Za-z])")
+    while i < n:
+        ch = text[i]
+        if ch == "\x1b":
+            m = esc.match(text, i)
+            if m:
+                if m.group(2) == "A":
+                    r = max(0, r - int(m.group(1) or 1))
+                    pending_wrap = False
+                i = m.end()
+                continue
+        if ch == "\n":
+            r += 1
+            c = 0
+            pending_wrap = False
+            while len(rows) <= r:
+                rows.append([])
+            i += 1
+            continue
+        if ch == "\r":
+            c = 0
+            pending_wrap = False
+            i += 1
+            continue
+        if pending_wrap:
+            r += 1
+            c = 0
+            pending_wrap = False
+            while len(rows) <= r:
+                rows.append([])
+        row = rows[r]
+        while len(row) <= c:
+            row.append(" ")
+        row[c] = ch
+        if c == width - 1:
+            pending_wrap = True
+        else:
+            c += 1
+        i += 1
+    return ["".join(x).rstrip() for x in rows]
+
+
+def pretty_on_a_terminal(lab, mon, rng):
+    """The pretty formatter in coloured mode rewrites the line of a step when its result arrives (cursor up, print again): on
+    the terminal every scenario header and every step is to be seen exactly once afterwards -- the same text the monochrome
+    mode prints.  Step lines of every length around the terminal width are produced."""
+    import io
+    from behave.formatter.pretty import PrettyFormatter
+    from behave.formatter.base import StreamOpener
+    # one feature, a few scenarios; step texts padded so that printed lines fall on and around the 80-column boundary
+    outcomes = {}
+    items = []
+    nid = [0]
+    for si in range(rng.randint(1, 3)):
+        steps = []
+        for _ in range(rng.randint(1, 3)):
+            nid[0] += 1
+            pad = "x" * rng.choice([0, 10, 56, 57, 58, 59, 60, 61, 62, 63, 64, 65, 66, 130, 136, 137, 138, 139, 140, 141, 142, 143, 144])
+            text = "k%d pad %s" % (nid[0], pad)
+            outcomes[text] = rng.choice(["pass", "pass", "pass", "fail"])
+            steps.append({"kw": rng.choice(["Given", "When", "Then"]), "text": text})
+        items.append({"kind": "scenario", "tags": [], "name": "T%d" % si, "desc": [], "steps": steps})
+    in_rule = rng.random() < 0.4
+    if in_rule:
+        items = [{"kind": "rule", "tags": [], "name": "R", "desc": [], "background": None, "items": items}]
+    program = {"features": [{"kind": "feature", "tags": [], "name": "F", "desc": [], "file": "t.feature", "background": None, "items": items}],
+               "outcomes": outcomes}
+    source = rng.random() < 0.5
+    args = ["--no-timings", "--no-summary"] + ([] if source else ["--no-source"])
+    shown = {}
+    for mode in ("monochrome", "coloured"):
+        buf = io.StringIO()
+
+        def formatters(config, st, buf=buf):
+            return [PrettyFormatter(StreamOpener(stream=buf), config)]
+        obs = lab.run(program, args=args + (["--no-color"] if mode == "monochrome" else ["--color=always"]), formatters=formatters)
+        if obs.escaped is not None:
+            mon.check("pretty.coloured_terminal_shows_what_monochrome_prints", False, dict(mode=mode, escaped=repr(obs.escaped)))
+            return
+        shown[mode] = buf.getvalue()
+    want = [l.rstrip() for l in shown["monochrome"].split("\n")]
+    # (monochrome lines longer than the terminal wrap as well)
+    want_rows = []
+    for l in want:
+        want_rows.extend([l[j:j + 80] for j in range(0, len(l), 80)] or [""])
+    got_rows = terminal_screen(shown["coloured"], 80)
+    strip = lambda rows: [x.rstrip() for x in rows if x.strip()]
+    lens = sorted(set(len(l) for l in want if "pad" in l))
+    mon.case(("pretty-terminal", tuple(sorted(outcomes.items())), in_rule, source), True)
+    mon.check("pretty.coloured_terminal_shows_what_monochrome_prints", strip(got_rows) == strip(want_rows),
+              lambda: dict(step_line_lengths=lens, inside_rule=in_rule, show_source=source,
+                           terminal=strip(got_rows)[:14], monochrome=strip(want_rows)[:14]))
+    for L in lens:
+        if L % 80 in (0, 1, 79):
+            mon.seen("pretty_step_line_length", "at_a_multiple_of_the_terminal_width" if L % 80 == 0 else "next_to_a_multiple")
+
+
 def run(spec, mon):
     from ..lab.inproc import RunLab
     lab = RunLab()
     tier = spec.get("tier", "quick")
     rng = random.Random(spec["seed"])
+    for _ in range(40 if tier == "quick" else 1500):
+        pretty_on_a_terminal(lab, mon, rng)
     outs = [o for o in OUTCOMES]
     n = 60 if tier == "quick" else 2500
     for i in range(n):
